@@ -471,7 +471,9 @@ def _get_shape(tree: ast.Module) -> dict:
             continue                    # class access / cached value / TypeError paths
         if kinds not in listing:
             listing.append(kinds)
-        last_needed = max([i for i, k in enumerate(kinds) if k in ('parse', 'materialise', 'cache')], default=-1)
+        # only the reader call and the materialisation of a generator result can raise; the position of the cache store
+        # relative to the clears cannot be observed (nothing in between raises), so it is not constrained
+        last_needed = max([i for i, k in enumerate(kinds) if k in ('parse', 'materialise')], default=-1)
         if 'parse' in kinds and ('cache' not in kinds or kinds.index('cache') < max(i for i, k in enumerate(kinds) if k in ('parse', 'materialise'))):
             uncached = True
         if 'cache' not in kinds or 'parse' not in kinds:
